@@ -110,22 +110,32 @@ def check_chunk(args):
             p, _sd, text = impl_piece(py, w, fr, smart)
             pieces.append(p)
             outs.add(text)
-        n_eval += len(cfgs)
+        # the layout is a function of the document and the configuration: a second document object built the same way, laid out
+        # under the same configurations in the opposite order (wide before narrow), must give the same streams
+        py2 = to_py_shared(d, {})
+        rev = [None] * len(cfgs)
+        for i in range(len(cfgs) - 1, -1, -1):
+            (w, fr, rw, smart) = cfgs[i]
+            rev[i] = impl_piece(py2, w, fr, smart)[0]
+        n_eval += 2 * len(cfgs)
         if len(outs) > 1:
             n_nontrivial += 1
         reqs.append('(lay %s %s)' % (to_sx(d), cfg_sx))
-        exps.append('(ok ' + ' '.join(pieces) + ')')
+        exps.append(('(ok ' + ' '.join(pieces) + ')', pieces, rev))
         keep.append(d)
     got = drv.ask_many(reqs)
-    for d, e, g in zip(keep, exps, got):
-        if e != g:
-            # localise the configuration
-            py = to_py_shared(d, {})
-            for (w, fr, rw, smart) in cfgs:
-                p, _sd, _t = impl_piece(py, w, fr, smart)
+    for d, (e, pieces, rev), g in zip(keep, exps, got):
+        if e != g or rev != pieces:
+            # localise the configuration (on the streams recorded above: a fresh layout may not show a difference that depends on
+            # what was laid out before)
+            for i, (w, fr, rw, smart) in enumerate(cfgs):
                 g1 = drv.ask('(lay %s (%d %d %d))' % (to_sx(d), w, rw, smart))
-                if '(ok ' + p + ')' != g1:
-                    mism.append({'doc': d, 'w': w, 'frac': str(fr), 'rw': rw, 'smart': smart, 'impl': p, 'model': g1})
+                if '(ok ' + pieces[i] + ')' != g1:
+                    mism.append({'doc': d, 'w': w, 'frac': str(fr), 'rw': rw, 'smart': smart, 'impl': pieces[i], 'model': g1})
+                    break
+                if '(ok ' + rev[i] + ')' != g1:
+                    mism.append({'doc': d, 'w': w, 'frac': str(fr), 'rw': rw, 'smart': smart, 'impl': rev[i], 'model': g1,
+                                 'history': 'one document object laid out under the configurations of this run in descending order before this one'})
                     break
             else:
                 mism.append({'doc': d, 'error': 'batched answer differs but no single configuration does', 'impl': e[:300], 'model': g[:300]})
@@ -148,6 +158,33 @@ def run_chunks(all_docs, cfgs, chunk=200):
 
 
 FRACS = [Fraction(1, 4), Fraction(1, 2), Fraction(9, 10), Fraction(1, 1)]
+
+
+def rand_align_doc(rng):
+    def txt(lo=1, hi=4):
+        return ('t', 'x' * rng.randint(lo, hi))
+
+    def rel(d):
+        r = rng.random()
+        if r < 0.5:
+            return ('align', d)
+        if r < 0.8:
+            return ('hang', rng.choice([0, 2, 4]), d)
+        return ('nest', rng.choice([1, 2]), ('align', d))
+    brk = lambda: rng.choice([('line',), ('line',), ('hl',), ('softline',)])
+    inner = rel(('cat', [txt(), brk(), txt(1, 2)]))
+    if rng.random() < 0.3:
+        inner = ('cat', [inner, brk(), rel(('cat', [txt(1, 2), brk(), txt(1, 2)]))])
+    body = rel(('cat', [txt(1, 3), ('line',), inner]))
+    if rng.random() < 0.5:
+        body = ('group', body)
+    parts = [txt(0, 5), body]
+    if rng.random() < 0.4:
+        parts += [brk(), txt(1, 3)]
+    d = ('cat', parts)
+    if rng.random() < 0.3:
+        d = ('nest', rng.choice([1, 3]), ('cat', [txt(1, 2), ('hl',), d]))
+    return d
 
 
 def engine_section(tier, seed, classic=False):
@@ -179,6 +216,17 @@ def engine_section(tier, seed, classic=False):
         if rng.random() < 0.15:
             d = ('cat', [d, ('line',), d])   # the same object twice
         rdocs.append(d)
+    # column-relative combinators inside each other: align / hang nested in align / hang, in a group that starts after some text
+    # (the fitting predicate then evaluates them at other columns and indentations than the layout does)
+    adocs = [rand_align_doc(rng) for _ in range(400 if tier == 'quick' else 6000)]
+    if classic:
+        adocs = [d for d in adocs if 'hang' not in to_sx(d)]
+    cfa, _dr = make_configs(range(2, 17), [Fraction(1, 1), Fraction(1, 2)])
+    ev4, nt4, mm4, nd4 = run_chunks(adocs, cfa, chunk=25)
+    stats['nested_align_docs'] = nd4
+    stats['evaluations'] += ev4
+    stats['distinct_nontrivial'] += nt4
+    mism.extend(mm4)
     fr_r = FRACS + [Fraction(1, 3), Fraction(3, 4), Fraction(1, 10)]
     cfr, dr3 = make_configs([1, 2, 3, 5, 8, 10, 13, 20, 30, 40, 79], fr_r)
     ev3, nt3, mm3, nd3 = run_chunks(rdocs, cfr, chunk=50)
